@@ -18,7 +18,6 @@ import (
 	"strings"
 	"time"
 
-	"github.com/cenkalti/backoff/v4"
 	"github.com/gebn/bmc"
 	"github.com/gebn/bmc/pkg/iana"
 	"github.com/gebn/bmc/pkg/ipmi"
@@ -105,6 +104,7 @@ type sessEnv struct {
 	ctx    context.Context
 	inSess bool
 	recv   []byte
+	closeT func()
 }
 
 func (e *sessEnv) send(ctx context.Context, p []byte) ([]byte, error) {
@@ -144,7 +144,9 @@ func (e *sessEnv) send(ctx context.Context, p []byte) ([]byte, error) {
 func openSession(auth, integ byte) (*sessEnv, error) {
 	e := &sessEnv{bmc: newSimBMC([]byte(fixedPass), nil), recv: make([]byte, 512)}
 	e.ctx, e.cancel = context.WithTimeout(context.Background(), 10*time.Second)
-	e.t = bmc.VerifNewV2SessionlessTransport(e.send, 50*time.Millisecond, &backoff.ZeroBackOff{})
+	var closeT func()
+	e.t, closeT = newTransport(e.send, 50*time.Millisecond)
+	e.closeT = closeT
 	old := rand.Reader
 	rand.Reader = io.Reader(&cycleReader{b: hsEntropy})
 	defer func() { rand.Reader = old }()
@@ -154,6 +156,7 @@ func openSession(auth, integ byte) (*sessEnv, error) {
 			IntegrityAlgorithm: ipmi.IntegrityAlgorithm(integ), ConfidentialityAlgorithm: ipmi.ConfidentialityAlgorithmAESCBC128}},
 	})
 	if err != nil {
+		closeT()
 		return nil, err
 	}
 	e.sess = sess
@@ -185,6 +188,7 @@ func execSend(a []string) (string, string) {
 	if err != nil {
 		return "handshake-failed", ""
 	}
+	defer e.closeT()
 	defer e.cancel()
 	if !bytes.Equal(e.sess.K(1), k1) || !bytes.Equal(e.sess.K(2)[:16], k2) || e.sess.LocalID != lid || e.sess.RemoteID != rid {
 		return "session-differs-from-op", ""
